@@ -147,7 +147,7 @@ impl Monitor for C13 {
         vec![("histories", tier.pick(90_000, 1_800_000)), ("long_windows", tier.pick(6_000, 120_000))]
     }
     fn rule(&self) -> &'static str {
-        "case = one real learn() run of a tiny model (dense(1) or dense(2)->dense(1), linear / ReLU / tanh, bias optional) on 1..3 training and 1..3 validation samples with dyadic inputs, targets, initial weights and learning rates (0.125..2), objective AE or MSE, batch 1..3, so that the validation loss really falls, rises from the first epoch, is V-shaped, oscillates (AE steps of fixed size around the optimum, MSE beyond the stable learning rate) or sits on plateaus of exactly equal values (AE gradient 0 at an exact hit, validation inputs 0, dead ReLU); tolerance T in 1..6, epoch budget E in 1..15, with and (every 5th) without validation data, print frequency None / 1 / 2..4 / 100. The offline checker takes the returned vectors v (validation loss), train, accuracy: |train| = |acc| = |v| = n <= E; no e < n with P(e); n < E implies P(n), where P(e) = e > T and v strictly increasing over the last T recorded epochs; without validation data n = E and the other vectors are empty. Independently the event log must show exactly n distinct update step numbers 1..n. Every third case calls learn() a second time on the same network (own tolerance 1..4 and budget 1..10, with validation data) and applies the same checker to that call's vectors. long_windows: tolerance 7..200 (the values around 16, 32, 64, 128, 192 over-represented), budget T+1..3T+1; one weight, x = 1, AE, SGD with learning rate (1 - 1/P) ulp(S): the weight rises by the learning rate every epoch and the validation loss S + w (S = 2^k) recorded in single precision rises by one ulp except for an isolated repeat every P-th epoch, so the tolerance window is a run of rises with a single plateau that visits every window position as the window slides (P < T: training must run to the end; P >= T: it must stop at the first full window of rises, never before epoch T+1); same offline checker; evidence lists the (T, plateau position) pairs seen at decision points. Distinct = distinct (T, E, loss vector) triples; floors: all 13 window comparison patterns for T <= 3 observed at decision points, early stops and full-length runs for every T."
+        "case = one real learn() run of a tiny model (dense(1) or dense(2)->dense(1), linear / ReLU / tanh, bias optional) on 1..3 training and 1..3 validation samples with dyadic inputs, targets, initial weights and learning rates (0.125..2), objective AE or MSE (one case in five: KL divergence or BCE on a sigmoid output with targets in (0,1), which makes negative validation losses), batch 1..3, so that the validation loss really falls, rises from the first epoch, is V-shaped, oscillates (AE steps of fixed size around the optimum, MSE beyond the stable learning rate) or sits on plateaus of exactly equal values (AE gradient 0 at an exact hit, validation inputs 0, dead ReLU); tolerance T in 1..6, epoch budget E in 1..15, with and (every 5th) without validation data, print frequency None / 1 / 2..4 / 100. The offline checker takes the returned vectors v (validation loss), train, accuracy: |train| = |acc| = |v| = n <= E; no e < n with P(e); n < E implies P(n), where P(e) = e > T and v strictly increasing over the last T recorded epochs; without validation data n = E and the other vectors are empty. Independently the event log must show exactly n distinct update step numbers 1..n. Every third case calls learn() a second time on the same network (own tolerance 1..4 and budget 1..10, with validation data) and applies the same checker to that call's vectors. long_windows: tolerance 7..200 (the values around 16, 32, 64, 128, 192 over-represented), budget T+1..3T+1; one weight, x = 1, AE, SGD with learning rate (1 - 1/P) ulp(S): the weight rises by the learning rate every epoch and the validation loss S + w (S = 2^k) recorded in single precision rises by one ulp except for an isolated repeat every P-th epoch, so the tolerance window is a run of rises with a single plateau that visits every window position as the window slides (P < T: training must run to the end; P >= T: it must stop at the first full window of rises, never before epoch T+1); same offline checker; evidence lists the (T, plateau position) pairs seen at decision points. Distinct = distinct (T, E, loss vector) triples; floors: all 13 window comparison patterns for T <= 3 observed at decision points, early stops and full-length runs for every T."
     }
     fn assumptions(&self) -> Vec<&'static str> {
         vec!["no value is injected into the library: trajectories come from real training", "NaN validation losses are not generated (comparisons with NaN are unspecified)"]
@@ -160,14 +160,19 @@ impl Monitor for C13 {
         let t = 1 + (idx % 6) as usize;
         let e_budget = 1 + ((idx / 6) % 15) as usize;
         let with_val = (idx / 90) % 5 != 4;
-        let obj = if rng.bool() { Obj::AE } else { Obj::MSE };
+        // one case in five: KL divergence on a sigmoid output that is not normalised - the loss
+        // t ln(t/p) is negative when the prediction exceeds the target, and training drives it
+        // further down (negative, strictly decreasing histories); sometimes BCE
+        let prob = rng.chance(0.2);
+        let obj = if prob { *rng.pick(&[Obj::KL, Obj::KL, Obj::BCE]) } else if rng.bool() { Obj::AE } else { Obj::MSE };
         let hidden = rng.chance(0.3);
         let act = *rng.pick(&[Act::Linear, Act::Linear, Act::Relu, Act::Tanh]);
         let bias = rng.chance(0.3);
+        let out_act = if prob { Act::Sigmoid } else { Act::Linear };
         let layers = if hidden {
-            vec![LCfg::Dense { n: 2, act, bias, dropout: None }, LCfg::Dense { n: 1, act: Act::Linear, bias: false, dropout: None }]
+            vec![LCfg::Dense { n: 2, act, bias, dropout: None }, LCfg::Dense { n: 1, act: out_act, bias: false, dropout: None }]
         } else {
-            vec![LCfg::Dense { n: 1, act, bias, dropout: None }]
+            vec![LCfg::Dense { n: 1, act: if prob { Act::Sigmoid } else { act }, bias, dropout: None }]
         };
         let cfg = NetCfg::plain(Sh::Flat(1), layers);
         // dyadic parameters
@@ -188,7 +193,7 @@ impl Monitor for C13 {
             2 => Some(100),
             _ => None,
         };
-        let pt = |rng: &mut Rng| -> (Vec<f32>, Vec<f32>) { (vec![*rng.pick(&[1.0f32, -1.0, 0.5, 2.0, 0.0, -0.5])], vec![*rng.pick(&[0.0f32, 1.0, -1.0, 2.0, 0.5, 4.0, -3.0])]) };
+        let pt = |rng: &mut Rng| -> (Vec<f32>, Vec<f32>) { (vec![*rng.pick(&[1.0f32, -1.0, 0.5, 2.0, 0.0, -0.5])], vec![if prob { *rng.pick(&[0.125f32, 0.25, 0.5, 0.75, 0.0625]) } else { *rng.pick(&[0.0f32, 1.0, -1.0, 2.0, 0.5, 4.0, -3.0]) }]) };
         let (mut txs, mut tts) = (Vec::new(), Vec::new());
         for _ in 0..n_train {
             let (x, y) = pt(&mut rng);
@@ -262,6 +267,15 @@ impl Monitor for C13 {
         }
         out.cover("modes", "with-validation".into());
         let n = vl.len();
+        if vl.iter().any(|v| *v < 0.0) {
+            out.count("histories_with_negative_validation_losses", 1);
+            if vl.len() >= 3 && vl.windows(2).all(|p| p[1] < p[0]) {
+                out.count("negative_strictly_decreasing_histories", 1);
+            }
+            if vl.len() >= 3 && vl.windows(2).all(|p| p[1] > p[0]) {
+                out.count("negative_strictly_increasing_histories", 1);
+            }
+        }
         out.key = format!("T{} E{} {:?}", t, e_budget, vl);
         if vl.iter().any(|v| v.is_nan()) {
             out.nontrivial = false;
@@ -368,6 +382,7 @@ impl Monitor for C13 {
         let outcomes = agg.set_size("outcome_per_tolerance");
         agg.require(outcomes >= 12, format!("only {} of 12 (tolerance, outcome) combinations observed", outcomes));
         agg.require(agg.count("learn_runs") >= 3000, "too few learn runs".into());
+        agg.require(agg.count("negative_strictly_decreasing_histories") >= 100, "too few negative decreasing histories".into());
         agg.require(agg.count("second_learn_calls_judged") >= 1000, "too few second learn() calls".into());
         agg.require(agg.set_size("second_call_outcomes") == 2, "second learn() calls: not both outcomes observed".into());
         agg.require(agg.count("long_window_runs") >= 1000, "too few long-window runs".into());
